@@ -104,6 +104,9 @@ func (a *ReplicaAPI) visible(c string) bool {
 	if a.env.Holds(c, a.idx) {
 		return true
 	}
+	if !a.env.Net.HashReachable(a.idx, c) {
+		return false
+	}
 	for _, h := range a.env.holders(c) {
 		if a.env.Net.BlocksReachable(a.idx, h) {
 			return true
@@ -111,6 +114,10 @@ func (a *ReplicaAPI) visible(c string) bool {
 	}
 	return false
 }
+
+// Visible reports whether the replica can obtain block c right now (own block store or a
+// connected holder).
+func (a *ReplicaAPI) Visible(c string) bool { return a.visible(c) }
 
 func (d simDag) Get(ctx context.Context, c cid.Cid) (ipld.Node, error) {
 	a := d.a
